@@ -1,6 +1,7 @@
 """Base mixins for pyscript decorators."""
 
 from abc import ABC
+import asyncio
 import logging
 from typing import Any
 
@@ -30,6 +31,7 @@ class ExpressionDecorator(Decorator, ABC):
     """Base for AstEval-based decorators."""
 
     _ast_expression: AstEval = None
+    _eval_lock: asyncio.Lock = None
 
     def create_expression(self, expression: str) -> None:
         """Create AstEval expression."""
@@ -52,8 +54,12 @@ class ExpressionDecorator(Decorator, ABC):
         """Evaluate expression and dispatch an exception event via manager on failure."""
         if not self.has_expression():
             raise AttributeError(f"{self} has no expression defined")
+        if self._eval_lock is None:
+            # occurrences are handled in tasks of their own; the single evaluator takes them one at a time
+            self._eval_lock = asyncio.Lock()
         try:
-            return await self._ast_expression.eval(state_vars)
+            async with self._eval_lock:
+                return await self._ast_expression.eval(state_vars)
         except Exception as exc:
             await self.dm.handle_exception(exc)
             return False
